@@ -751,7 +751,8 @@ static int encode_section( const int16_t *inbuf,
     int *zrun_values = 0;
     do {
         CHECKED_MALLOC( weight_values, size*sizeof(int) );
-        CHECKED_MALLOC( zrun_values, size*sizeof(int) );
+        // There is one more zero run than weights (zeros in front of the first and behind every weight)
+        CHECKED_MALLOC( zrun_values, (size+1)*sizeof(int) );
 
         // Get weights (or weight indicies) AND zero-runs from the input weight stream.
         int i=0, n_weights = 0, zcnt;
